@@ -28,7 +28,7 @@ type PlainDataCase struct {
 func genPlainData(t *rapid.T) PlainDataCase {
 	vo := jsongen.Opts{Depth: 2, Width: 3, Strs: []string{"a", "b", "n1", "start"}, Nums: []float64{0, 1, 2, 3, 0.5, -1, 1e9, 2.5}, Keys: []string{"a", "b", "c"}}
 	_ = vo
-	o := sm.SpecOpts{Deterministic: true, NativeToo: rapid.IntRange(0, 3).Draw(t, "nat") == 0, Fail: 2, GuardFail: 1, Emit: true, UserErrorNode: true, Derive: true, ArrayVar: true, IneqBound: true}
+	o := sm.SpecOpts{Deterministic: true, NativeToo: rapid.IntRange(0, 3).Draw(t, "nat") == 0, Fail: 2, GuardFail: 1, Emit: true, UserErrorNode: true, Derive: true, ArrayVar: true, IneqBound: true, Ext: true}
 	a := sm.GenLivelySpec(t, o)
 	c := PlainDataCase{Spec: a, Node: rapid.SampledFrom(a.NodeNames()).Draw(t, "at"), Bs: sm.GenBindings(t, "bs")}
 	if rapid.IntRange(0, 2).Draw(t, "arrobj") == 0 {
